@@ -545,7 +545,7 @@ func execute(h *run.H, tr *hist.Trace, draw func(w *hist.World, i int) (hist.Ste
 			fmt.Fprintf(os.Stderr, "---- height %d kinds %v codes %v\n", w.C.Height, st.Kinds, codes(res[0]))
 			for _, kv := range w.R[0].Dump() {
 				if strings.HasPrefix(kv.K, pre) {
-					fmt.Fprintf(os.Stderr, "  %q = %.200q\n", kv.K, kv.V)
+					fmt.Fprintf(os.Stderr, "  %q = %.700q\n", kv.K, kv.V)
 				}
 			}
 		}
